@@ -438,7 +438,7 @@ func (fn *Func) canon(e ast.Expr, depth int) string {
 			}
 		}
 		if b := fn.canon(x.X, depth); b != "" {
-			return b + "." + x.Sel.Name
+			return b + "." + canonId(x.Sel.Name)
 		}
 		return ""
 	case *ast.StarExpr:
